@@ -42,6 +42,11 @@ func (o opDef) String() string {
 var narrowKeys = []string{"/tables/a", "/tables/a/lease", "/tables/sys/idseq"}
 var wideKeys = []string{"/tables/a", "/tables/a/lease", "/tables/sys/idseq", "/cleanup/1/10001", "queue/a/1", "/tables/é世"}
 
+// spellKeys are pairwise different keys that a normalisation of the key (path cleaning, trimming of
+// slashes or blanks, case folding, unicode folding) would merge: the store is a map over the exact
+// key strings.
+var spellKeys = []string{"/tables/a", "/tables//a", "/tables/a/", "/tables/./a", "/tables/x/../a", "tables/a", "/tables/A", "/tables/a ", "/tables/a\u0301", "/tables/\u00e1"}
+
 func alphabet(keys []string, vers []int, values []string) []opDef {
 	var out []opDef
 	for _, k := range keys {
@@ -185,9 +190,10 @@ func (m *model) lookups(keys []string) string {
 }
 
 type Case struct {
-	Wide bool     `json:"wide,omitempty"`
-	Seq  []int    `json:"seq"`
-	Desc []string `json:"desc,omitempty"`
+	Wide  bool     `json:"wide,omitempty"`
+	Spell bool     `json:"spell,omitempty"`
+	Seq   []int    `json:"seq"`
+	Desc  []string `json:"desc,omitempty"`
 }
 
 type viol struct{ sig, detail string }
@@ -426,6 +432,22 @@ func Run(r *evid.Run) {
 	if wdone < wtotal {
 		r.Cap(fmt.Sprintf("deadline: %d of %d wide sequences", wdone, wtotal))
 	}
+	spell := alphabet(spellKeys, []int{0, 1}, []string{"v1"})
+	stotal := par.SeqCount(len(spell), 2)
+	sdone := par.For(stotal, r.Expired, func(i int64) {
+		c := Case{Spell: true, Seq: par.SeqAt(len(spell), 2, i)}
+		vs, outcome, nt := run(spell, spellKeys, c)
+		r.Outcome("s"+outcome, nt)
+		for _, v := range vs {
+			c.Desc = describe(spell, c.Seq)
+			r.Violate("spelling/"+v.sig, v.detail, c)
+		}
+	})
+	if sdone < stotal {
+		r.Cap(fmt.Sprintf("deadline: %d of %d key-spelling sequences", sdone, stotal))
+	}
+	r.Extra("key_spelling_sequences", sdone)
+	r.Rule(fmt.Sprintf("key spellings: every sequence of length 0..2 over %d updates on %d pairwise different keys that a normalisation would merge (doubled, trailing, dot and dot-dot path elements, missing leading slash, letter case, trailing blank, composed vs decomposed accent); same oracle: the store is a map over the exact key strings", len(spell), len(spellKeys)))
 	runConformance(r)
 	r.Extra("narrow_sequences", done)
 	r.Extra("wide_sequences", wdone)
@@ -438,7 +460,9 @@ func Replay(raw json.RawMessage) (string, bool) {
 		return err.Error(), false
 	}
 	var vs []viol
-	if c.Wide {
+	if c.Spell {
+		vs, _, _ = run(alphabet(spellKeys, []int{0, 1}, []string{"v1"}), spellKeys, c)
+	} else if c.Wide {
 		vs, _, _ = run(alphabet(wideKeys, []int{0, 1, 2, 3, 4}, []string{"v1", `{"json":"<&>"}`, ""}), wideKeys, c)
 	} else {
 		vs, _, _ = run(alphabet(narrowKeys, []int{0, 1, 2, 3}, []string{"v1", `{"json":"<&>"}`}), narrowKeys, c)
